@@ -141,6 +141,9 @@ func c05(c *Ctx) {
 	r.Check(expect != nil && frac >= 0.05 && frac <= 1, "R3.fraction", core.FuncName(m.prune)+" target", p.Pos(m.prune.Pos()),
 		fmt.Sprintf("prune target = capacity * %.4g", frac), fmt.Sprintf("prune target is capacity * %.4g, the property needs at least 5%% of the capacity", frac))
 	dels := core.CallsTo(m.prune, batchDelete)
+	if len(dels) == 0 {
+		r.Fail("R4.farthest-first", core.FuncName(m.prune)+" per-key-delete", p.Pos(m.prune.Pos()), "the prune loop no longer deletes the keys it visits one by one (e.g. a range delete): which keys are dropped, and that each dropped key's bytes are the ones subtracted, cannot be established (a half-open range misses the key at its end)")
+	}
 	var freed ssa.Value
 	for i, d := range dels {
 		g := core.AnyFact(func(f core.Fact) bool {
